@@ -129,6 +129,8 @@ int sim_armed_timers(void);
 
 /* heap */
 void sim_heap_fail_nth(long nth);  /* the nth allocation from now (1 = next) returns NULL; 0 = off */
+void sim_heap_fail_second(long gap); /* call after sim_heap_fail_nth: once that failure fired, the gap-th allocation after it fails too */
+long sim_heap_failures(void);      /* injected failures that fired since the last sim_heap_fail_nth */
 long sim_heap_allocs(void);        /* number of allocation calls so far */
 long sim_heap_live(void);          /* live raw blocks */
 const char *sim_heap_fail_site(void); /* after a failure fired: "function" containing the allocation call (symbolised lazily), or "" */
